@@ -23,7 +23,7 @@ RULE = (
 )
 ASSUMPTIONS = [
     "relational oracle only: no expected values, so a wrong answer that is wrong the same way everywhere is not this property's business",
-    "PREFER_DATES_FROM is left at its default: with 'past'/'future' a two-digit year is moved by a century relative to the reference, which the statement does not address",
+    "with PREFER_DATES_FROM 'past'/'future' (20 % of the cases) only R1 is judged: a two-digit year is then moved by a century relative to the reference, which the statement does not address, so R2/R3 across references would ask for more than is stated",
     "both worlds of a case share the process zone (the property quantifies over reference times; timestamps are rendered in the process zone by design)",
     "frozen clock per call (a relation between calls needs each call to have one reference)",
 ]
@@ -31,7 +31,10 @@ EXPECTED_PROBES = {"clock_in_play": 1, "strict_value": 1, "strict_none": 1, "cus
 
 EN_MONTHS = ["January", "February", "March", "April", "May", "June", "July", "August", "September", "October", "November", "December"]
 EN_DAYS = ["Monday", "Tuesday", "Wednesday", "Thursday", "Friday", "Saturday", "Sunday"]
-PARSER_SETS = [None, ["absolute-time"], ["absolute-time"], ["absolute-time"], ["no-spaces-time"], ["custom-formats", "absolute-time"], ["timestamp", "absolute-time"], ["timestamp", "custom-formats", "absolute-time", "no-spaces-time"], ["absolute-time", "no-spaces-time"]]
+# never 'relative-time': the property is about the absolute / custom-format / timestamp parsers, and
+# a weekday or month name that doubles as a unit word (pa-Arab: Saturday = "week") would turn a
+# generated partial date into a relative phrase, to which strictness does not apply
+PARSER_SETS = [["timestamp", "custom-formats", "absolute-time"], ["absolute-time"], ["absolute-time"], ["absolute-time"], ["no-spaces-time"], ["custom-formats", "absolute-time"], ["timestamp", "absolute-time"], ["timestamp", "custom-formats", "absolute-time", "no-spaces-time"], ["absolute-time", "no-spaces-time"]]
 PART_SUBSETS = [[], ["day"], ["month"], ["year"], ["day", "month"], ["day", "year"], ["month", "year"], ["day", "month", "year"]]
 
 
@@ -143,11 +146,15 @@ def gen_case(rng, ctx):
         extra["PREFER_MONTH_OF_YEAR"] = rng.choice(["first", "last", "current"])
     if rng.random() < 0.2:
         extra["DATE_ORDER"] = rng.choice(["DMY", "MDY", "YMD"])
+    if rng.random() < 0.2:
+        # non-default preference: only R1 (same world, strict on vs off) is judged then, because a
+        # two-digit year is legitimately moved by a century relative to the reference
+        extra["PREFER_DATES_FROM"] = rng.choice(["past", "future"])
     ps = rng.choice(PARSER_SETS)
     if kind == "timestamp" and rng.random() < 0.6:
         ps = ["timestamp"]
     if fmts:
-        ps = ["custom-formats"] if rng.random() < 0.6 else (ps if ps is None or "custom-formats" in ps else ["custom-formats"] + ps)
+        ps = ["custom-formats"] if rng.random() < 0.6 else (ps if "custom-formats" in ps else ["custom-formats"] + ps)
     if ps is not None:
         extra["PARSERS"] = ps
     stricts = [{"STRICT_PARSING": True}]
@@ -316,6 +323,9 @@ def eval_case(case):
             stats["strict_value"] = 1
         if len(nonnull) < len(oks):
             stats["strict_none"] = 1
+        if case["extra"].get("PREFER_DATES_FROM") in ("past", "future"):
+            stats["r1_only_non_default_preference"] = 1
+            continue
         if "STRICT_PARSING" in strict:
             if len({repr(v) for v in nonnull}) > 1:
                 problems.append(("R2-strict-result-depends-on-reference", name, "results %s" % sorted({str(v) for v in nonnull})))
